@@ -112,8 +112,45 @@ def _l13_chunk(chunk):
     return len(chunk), nt, fails
 
 
+# the kind of an argument of a C-like command line, written from the statement: -I / -L go to the front and are override-type
+# (front-most wins); -D / -U / -isystem are override-type (last wins); -lfoo, a library FILE (static, shared, import; a shared
+# library with a version suffix, whatever directory it is in), -pthread and the like are once-only; a bare prefix (`-I` followed by
+# its value as the next word) is never touched, nor is anything else
+KINDS = {
+    'override-front': ['-Ia', '-I/x y', '-L/q', '-L.'],
+    'override-last': ['-Dx=1', '-DX', '-Ux', '-isystem/usr/include'],
+    'once': ['-lfoo', '-Wl,-lfoo', '/abs/libz.a', 'libz.a', 'libz.so', '/d/libz.so', '/d/libz.so.1', 'libz.so.1.2.3', '/usr/lib/x86_64/libz.so.1.2', 'd\\libz.so.4',
+             'x.dll', 'x.lib', '/d/y.dylib', '-pthread', '-Wl,-rpath,/x', '-Wl,-rpath-link,/y', '-Wl,--export-dynamic', '-pipe'],
+    'front-kept': ['-I', '-L'],        # a bare -I / -L (value in the next word): goes to the front like every -I / -L, never dropped
+    'none': ['-D', '-U', '-isystem', '-l', 'x.c', '-O2', '-Wall', 'main.o', '-o', '-include', 'libz.so.1.2.3.4', '-Wl,--as-needed'],
+}
+
+
+def _kind_chunk(chunk):
+    C = _cls()
+    fails, nt = [], 0
+    for kind, a in chunk:
+        nt += 1
+        for other in ('x.c', '-O2'):
+            r = C(None)
+            r += [a]
+            r += [other]
+            r += [a]
+            got = list(r)
+            want = {'override-front': [a, other], 'override-last': [other, a], 'once': [a, other], 'none': [a, other, a], 'front-kept': [a, a, other]}[kind]
+            if got != want:
+                fails.append({'case': {'kind': kind, 'argument': a, 'between': other}, 'stage': 'kind', 'detail': f'adding {a!r}, {other!r}, {a!r} in three increments gives {got!r}; the statement prescribes {want!r} for a {kind} argument'})
+                break
+    return len(chunk), nt, fails
+
+
 def run(REG, tier, seed, jobs):
     parts = []
+    kc = [(k, a) for k, xs in KINDS.items() for a in xs]
+    ev, nt, fails = pmap(_kind_chunk, chunked(iter(kc), 8), jobs)
+    parts.append({'name': 'C13/bounded/argument-kinds-vs-statement', 'function': 'CLikeCompilerArgs (+= three times, then read): _can_dedup / _should_prepend tables and patterns',
+                  'bound': f'{len(kc)} arguments whose kind the statement fixes (-I/-L; -D/-U/-isystem; -l, library files with and without directories and version suffixes, -pthread ...; bare prefixes and ordinary words), each added, followed by another word, and added again',
+                  'evaluations': ev, 'distinct_nontrivial': nt, 'rule': 'every argument', 'exhaustive': True, 'failures': fails})
     rnd = random.Random(seed)
     alpha = ALPHA[:5] if tier == 'quick' else ALPHA
     ops = op_alphabet(alpha)
@@ -146,7 +183,8 @@ def run(REG, tier, seed, jobs):
     return {'parts': parts}
 
 
-CHECKS = {
+CHECKS = {'C13/bounded/argument-kinds-vs-statement': (_kind_chunk, lambda c: (c['kind'], c['argument'])),
+          
     'C13/bounded/histories-vs-eager-meaning': (_hist_chunk, lambda c: tuple(tuple(tuple(x) if isinstance(x, list) else x for x in o) for o in c['ops'])),
     'C13/bounded/L13-view-commutes-with-eager-iadd': (_l13_chunk, lambda c: (tuple(c['c']), tuple(c['pre']), tuple(c['post']), c['flag'], tuple(c['batch']))),
 }
